@@ -42,7 +42,7 @@ TLists == {<<T("fmap", <<(<<fA, <<x1>>>>)>>, <<>>, <<>>, FALSE, All)>>,
            <<T("regex", <<>>, <<105,103,110,111,114,101,95,99,97,115,101,95,98,114,97,99,107,101,116,115>>, <<>>, FALSE, All)>>,   \* ignore_case_brackets
            <<T("regex", <<>>, <<105,103,110,111,114,101,95,99,97,115,101,95,102,108,97,103>>, <<>>, FALSE, All)>>,          \* ignore_case_flag
            <<T("hashes", <<(<<(<<77,68,53>>), <<>>>>), (<<(<<83,72,65,49>>), <<>>>>)>>, <<70,105,108,101>>, <<>>, FALSE, All)>>,
-           <<T("fmap", <<(<<fA, <<x1>>>>), (<<(<<102,76>>), <<x1>>>>), (<<(<<103,56>>), <<x2>>>>)>>, <<>>, <<>>, TRUE, All)>>,     \* one-element target lists
+           <<T("fmap", <<(<<fA, <<x1>>>>), (<<(<<102,76>>), <<x1>>>>), (<<(<<103,56>>), <<x2>>>>), (<<(<<102,68>>), <<x2>>>>)>>, <<>>, <<>>, TRUE, All)>>,     \* one-element target lists (fA and fD of ONE map among them)
            <<T("fmap", <<(<<(<<102,82>>), <<x1>>>>), (<<(<<102,90>>), <<x1>>>>), (<<fA, <<(<<102,66>>)>>>>)>>, <<>>, <<>>, FALSE, All)>>,  \* two fields onto one name
            \* keywords and referenced fields mapped onto ONE-ELEMENT target lists / plain targets (the values change, not only the field)
            <<T("fmap", <<(<<(<<>>), <<x1>>>>)>>, <<>>, <<>>, TRUE, All)>>,
